@@ -300,6 +300,14 @@ Section Ops.
     | OReap k del => reap_steps k false del st
     end.
 
+  (* sow_samples on a crop that already has results (repair D39): the results of the earlier sow belong to other,
+     randomly drawn samples and are unlinked first, in the order the directory listing gives them ([ids]); then the
+     ordinary sow (which looks at the directories only, so the same steps before and after the unlinks).  The
+     theorems of Props/C10.v speak about [steps_of]; this prefix is covered by the crash exploration and the
+     correspondence only. *)
+  Definition resow_samples_steps (st : fs) (ids : list nat) (sw : sweep) (w : nat) : list step :=
+    map (fun i => Unlink (Fin (BResult i))) ids ++ sow_steps st sw w.
+
   (* ---- the documented recovery ---- *)
   (* everything a sow creates is there and readable: the three directories, the function, the
      settings, every batch *)
